@@ -307,7 +307,7 @@ def run(tier, seed):
     w = Worker()
     wrep = {"violations": [], "evaluations": 0, "formatted": 0, "ran": 0, "comments_seen": 0}
     for f in chk.known:
-        wit = f.get("witness") or {}
+      for wit in [f.get("witness") or {}] + list(f.get("more_witnesses") or []):
         if wit.get("op") == "format":
             o = wit.get("options") or {"line_length": 255}
             narrow = o.get("line_length", 255) < 255
